@@ -385,10 +385,14 @@ func (fr *Frame) applyContract(st *State, fc *FuncContract, sig *types.Signature
 	}
 	pre := st.clone()
 	// frame
-	if fc.HasMod {
+	switch {
+	case fc.Calls != "" && fr.callbackIsFrameFree(fc, args):
+		// "calls f" with a callback whose own (verified) contract says "modifies nothing": the call changes
+		// nothing of the modelled heap either (sync.Once.Do only runs f)
+	case fc.HasMod:
 		tg := fr.resolveTargets(sc, fc.Modifies)
 		fr.havocTargets(st, tg)
-	} else {
+	default:
 		fr.havocAll(st)
 	}
 	if !fc.Pure {
@@ -819,6 +823,19 @@ func (fr *Frame) devirtualise(st *State, cc *ssa.CallCommon, impls []implMethod,
 	*st = *m
 	st.pc = pc
 	return out
+}
+
+// callbackIsFrameFree: the argument bound to the contract's "calls" parameter is a function literal whose contract
+// is not trusted and declares "modifies nothing".
+func (fr *Frame) callbackIsFrameFree(fc *FuncContract, args []Val) bool {
+	for i, p := range fc.Params {
+		if p != fc.Calls || i >= len(args) || args[i].K != KClosure {
+			continue
+		}
+		cc := fr.en.CS.Funcs[FuncKey(args[i].Fn)]
+		return cc != nil && !cc.Trusted && cc.HasMod && len(cc.Modifies) == 0
+	}
+	return false
 }
 
 // mentionsInternal: the clause refers to ghost variables of the callee or to final(local).
